@@ -288,8 +288,10 @@ def models_clause(model, rep, funcs):
     f = funcs.get("acryo/tilt/_base.py::NoWedge.create_mask")
     if f is not None:
         rets = [r for r in walk_no_nested(f.node) if isinstance(r, ast.Return) and r.value is not None]
-        ok = len(rets) == 1 and isinstance(rets[0].value, ast.Call) and (dotted(rets[0].value.func) or "").endswith("ones") and \
-            rets[0].value.args and norm_src(rets[0].value.args[0]) == "shape"
+        from ..match import Matcher as _Mx
+        MN = _Mx(f)
+        ok = len(rets) == 1 and any(MN.has(p_) for p_ in ("return np.ones(shape, ...)", "return np.full(shape, 1.0, ...)", "return np.full(shape, 1, ...)",
+                                                          "return np.ones(shape)", "return np.ones_like($$x)"))
         rep.instance("SLOT.models", f.loc())
         rep.ob("SLOT", f.anchor, "the no-wedge model keeps every bin: ones(shape)", ok, norm_src(rets[0].value) if rets else "", node=f.node, fn=f,
                clause="4 models", stmt="def NoWedge.create_mask")
@@ -322,43 +324,52 @@ def models_clause(model, rep, funcs):
         f = funcs.get(a)
         if f is None:
             continue
-        arrs = [c for c in ast.walk(f.node) if isinstance(c, ast.Call) and (dotted(c.func) or "").endswith("array") and c.args and isinstance(c.args[0], ast.List)
-                and len(c.args[0].elts) == 3]
+        # decided on symbolic terms: the function returns (array([cos t0, *, *]), array([cos t1, *, *])) with t_k = pi - radians(tilt_range[k]);
+        # helper functions, temporaries and the way the range is unpacked do not matter (the interpreter inlines repository helpers)
+        from ..domains.terms import T as _T, TermDomain as _TD, callee_name as _cn, freeze as _fz
         rep.instance("SLOT.models", f.loc())
-        ok = len(arrs) == 2
-        det = []
-        angs = []
-        for arr in arrs:
-            els = arr.args[0].elts
-            kinds = []
-            for e in els:
-                t = norm_src(e)
-                kinds.append("cos" if "cos(" in t else "sin" if "sin(" in t else "0" if t in ("0", "0.0") else "?")
-            want = ["cos", "0", "sin"] if zero_idx == 1 else ["cos", "sin", "0"]
-            if kinds != want:
-                ok = False
-                det.append(f"components {kinds}, required {want} (z, y, x order; the tilt axis component is 0)")
-            angs.append({norm_src(x.args[0]) for x in ast.walk(arr) if isinstance(x, ast.Call) and norm_src(x.func).endswith(("cos", "sin")) and x.args})
-        if len(angs) == 2 and (len(angs[0]) != 1 or len(angs[1]) != 1 or angs[0] == angs[1]):
-            ok = False
-            det.append(f"the two normals must each use one angle, and different ones: {angs}")
-        # angle definitions: pi - radians(min), pi - radians(max)
-        src = norm_src(f.node)
-        if src.count("pi -") < 2:
-            ok = False
-            det.append("angles are not pi - tilt")
-        unpack = [n for n in walk_no_nested(f.node) if isinstance(n, ast.Assign) and isinstance(n.targets[0], ast.Tuple) and len(n.targets[0].elts) == 2
-                  and "tilt_range" in norm_src(n.value)]
-        if unpack and len(angs) == 2 and all(len(x) == 1 for x in angs):
-            lo, hi = (norm_src(x) for x in unpack[0].targets[0].elts)
-            for which, (angname, want) in enumerate(zip([next(iter(x)) for x in angs], (lo, hi))):
-                deps = backward_slice_names(f.node, ast.parse(angname, mode="eval").body)
-                if want not in deps or ({lo, hi} - {want}) & deps:
+        out = _fz(Interp(model, _TD(), depth=2).run(f))
+        tr = _T("param", (f.param_names()[0],))
+        ok, det = True, []
+
+        def is_pi(t):
+            return isinstance(t, _T) and t.op == "ext" and str(t.args[0]).rsplit(".", 1)[-1] == "pi"
+
+        def is_rad(t, k):
+            if _cn(t) in ("radians", "deg2rad") and t.args[1] and t.args[1][0] == _T("item", (tr, k)):
+                return True
+            if isinstance(t, _T) and t.op == "item" and t.args[1] == k and _cn(t.args[0]) in ("radians", "deg2rad") and t.args[0].args[1] and t.args[0].args[1][0] == tr:
+                return True
+            return False
+
+        def angle_of(t):
+            return t.args[1][0] if _cn(t) in ("cos", "sin") and t.args[1] else None
+
+        if not (isinstance(out, _T) and out.op == "tuple" and len(out.args) == 2):
+            ok, det = None, [f"returns {out!r}"[:160]]
+        else:
+            for k, arr in enumerate(out.args):
+                comp = arr.args[1][0] if _cn(arr) in ("array", "asarray") and arr.args[1] else None
+                if not (isinstance(comp, _T) and comp.op == "tuple" and len(comp.args) == 3):
+                    ok = None if ok else ok
+                    det.append(f"normal {k} is {arr!r}"[:160])
+                    continue
+                kinds = [(_cn(c) if _cn(c) in ("cos", "sin") else ("0" if c in (_T("const", ("0",)), _T("const", ("0.0",))) else "?")) for c in comp.args]
+                want = ["cos", "0", "sin"] if zero_idx == 1 else ["cos", "sin", "0"]
+                if kinds != want:
                     ok = False
-                    det.append(f"normal {which} must be built from `{want}` only (angle {angname} depends on {sorted(deps & {lo, hi})})")
-        elif len(angs) == 2:
-            ok = None if ok else ok
-            det.append("tilt_range unpacking not recognised")
+                    det.append(f"components {kinds}, required {want} (z, y, x order; the tilt axis component is 0)")
+                    continue
+                angs_ = {angle_of(c) for c in comp.args if _cn(c) in ("cos", "sin")}
+                if len(angs_) != 1:
+                    ok = False
+                    det.append(f"normal {k}: cos and sin use different angles")
+                    continue
+                t = angs_.pop()
+                good = isinstance(t, _T) and t.op == "op" and t.args[0] == "Sub" and is_pi(t.args[1]) and is_rad(t.args[2], k)
+                if not good:
+                    ok = False
+                    det.append(f"normal {k}: angle {t!r} is not pi - radians(tilt_range[{k}]) (min tilt for the first plane, max tilt for the second)"[:220])
         rep.ob("SLOT", a, "wedge-plane normals are (cos t, 0, sin t) [Y axis] / (cos t, sin t, 0) [X axis] with t = pi - tilt for the min and max tilt", ok,
                "; ".join(det), node=f.node, fn=f, clause="4 models", stmt=f"def {f.name} normals")
     # SingleAxis validation of the range
